@@ -125,8 +125,16 @@ class Fn:
         self.sig = sig
         self.translated = translated           # python name -> dict(coq, params[(name, type)], ret)
         self.abstr = {}                        # source text -> (coq text, type, is_param)
+        self.varabstr = {}                     # source text -> variable name (abstraction kind "var")
         self.extra_params = []
         for src, (kind, txt, t) in sig.get("abstractions", {}).items():
+            if kind == "var":                     # the expression denotes a mutable container that the function updates in place
+                ty = parse_type(t)
+                self.abstr[src] = (txt, ty)
+                self.varabstr[src] = txt
+                if (txt, ty) not in self.extra_params:
+                    self.extra_params.append((txt, ty))
+                continue
             if kind == "static":                  # a test decided by the declared representation (e.g. isinstance(var, QOperation))
                 self.abstr[src] = (txt, ("static", txt == "true"))
                 continue
@@ -153,9 +161,15 @@ class Fn:
         self.dead = set()
 
     # ------------------------------------------------------------ liveness
-    @staticmethod
-    def vname(node):
-        """variable name of a Name or of self.X"""
+    def vname(self, node):
+        """variable name of a Name, of self.X, or of an expression abstracted as a mutable variable"""
+        if isinstance(node, (ast.Call, ast.Attribute, ast.Subscript)) and self.varabstr:
+            try:
+                src_ = ast.unparse(node)
+            except Exception:
+                src_ = None
+            if src_ in self.varabstr:
+                return self.varabstr[src_]
         if isinstance(node, ast.Name):
             return node.id
         if isinstance(node, ast.Attribute) and isinstance(node.value, ast.Name) and node.value.id == "self":
@@ -174,6 +188,8 @@ class Fn:
                 for w in re.findall(r"[A-Za-z_]\w*", self.abstr[src_][0]):      # an in-scope replacement expression reads its names
                     acc.add(w)
                 return
+        if isinstance(node, ast.Assign) and len(node.targets) == 1 and self.vname(node.targets[0]) in getattr(self, "skip_dead", ()):
+            return                                   # assignment to a never-read variable: its right-hand side is never needed
         if isinstance(node, (ast.Assign, ast.AugAssign)):
             tgts = node.targets if isinstance(node, ast.Assign) else [node.target]
             for t in tgts:
@@ -204,10 +220,17 @@ class Fn:
             self.loads(ch, acc)
 
     def pure(self, e):
-        for n in ast.walk(e):
+        if isinstance(e, ast.expr) and ast.unparse(e) in self.abstr:
+            return True
+        for n in ast.iter_child_nodes(e):
+            if not self.pure(n):
+                return False
+        n = e
+        if True:
             if isinstance(n, ast.Call):
                 fsrc = ast.unparse(n.func)
-                if not (fsrc.startswith("np.") or fsrc in PURE_CALLS or fsrc in self.calls):
+                strmeth = isinstance(n.func, ast.Attribute) and n.func.attr in ("lower", "upper", "endswith", "startswith")
+                if not (fsrc.startswith("np.") or fsrc in PURE_CALLS or fsrc in self.calls or strmeth):
                     return False
             if isinstance(n, (ast.Lambda, ast.Await, ast.Yield, ast.YieldFrom, ast.NamedExpr)):
                 return False
@@ -711,6 +734,10 @@ class Fn:
                     k1 = self.expr(tg.slice, Z)[0]
                     v = self.expr(s.value, t[1])[0]
                     return "let %s := dictz_set %s %s %s in\n  %s" % (n, n, k1, v, cont())
+                if t[0] == "L" and not isinstance(tg.slice, ast.Slice):
+                    k1 = self.expr(tg.slice, Z)[0]
+                    v = self.expr(s.value, t[1])[0]
+                    return "let %s := py_list_set %s %s %s in\n  %s" % (n, n, k1, v, cont())
                 fail(s, "store into %s" % (t,))
             fail(s, "assignment target")
         if isinstance(s, ast.Expr) and isinstance(s.value, ast.Call) and ast.unparse(s.value.func) in self.ignore_calls:
@@ -808,18 +835,34 @@ class Fn:
         for n, t in self.extra_params:
             self.env.setdefault(n, t)
         self.has_fail = any(isinstance(n, ast.Assert) for st in stmts for n in ast.walk(st))
-        # liveness
-        live = set()
+        # fail closed: every abstraction of the table must still occur in the source (otherwise the code it stood for was rewritten)
+        present = set()
         for st in stmts:
-            self.loads(st, live)
-        for o in (self.outputs or []):
-            live.add(o.replace("self.", "self_"))
-        allv = set()
-        saved_dead = self.dead
+            for nd in ast.walk(st):
+                if isinstance(nd, ast.expr):
+                    try:
+                        present.add(ast.unparse(nd))
+                    except Exception:
+                        pass
+        for src in self.abstr:
+            if src not in present:
+                fail(f, "the abstracted expression `%s` no longer occurs in the source" % src)
+        # liveness (transitive: a variable read only by statements that assign never-read variables is itself never read)
         self.dead = set()
-        for v in self.assigned(stmts):
-            allv.add(v)
-        self.dead = {v for v in allv if v not in live}
+        allv = set(self.assigned(stmts))
+        outs = {o.replace("self.", "self_") for o in (self.outputs or [])}
+        dead = set()
+        while True:
+            self.skip_dead = dead
+            live = set(outs)
+            for st in stmts:
+                self.loads(st, live)
+            new_dead = {v for v in allv if v not in live}
+            if new_dead == dead:
+                break
+            dead = new_dead
+        self.skip_dead = set()
+        self.dead = dead
         self.ret_type = None
         body = self.block(stmts, self.finish)
         allp = self.extra_params + params
@@ -938,6 +981,26 @@ TABLE = [
          coq_name="gen_is_all_same_composite_systems", params={"targets": "L[Z]"},
          abstractions={"targets[0]._composite_system == target._composite_system": ("expr", "(same_csys (znth 0%Z targets 0%Z) target)", "bool")},
          extra=[("same_csys", ["Z", "Z"], "bool")]),
+    # ---- generate_prob_dists_sequence: on a COPY of the experiment, the unknown's slot of every schedule is replaced by the true object,
+    #      then every schedule is evaluated. slots = the copy's list of objects of the estimated kind (opaque ids); the attribute NAME
+    #      dispatch (class name -> "states"/"povms"/"gates"/"mprocesses") stays differential; _get_target_index / calc_prob_dists uninterpreted
+    dict(file=STD + "standard_qtomography.py", **{"class": "StandardQTomography"}, function="generate_prob_dists_sequence",
+         coq_name="gen_generate_prob_dists_sequence", params={"true_object": "Z"},
+         abstractions={"self._experiment.copy()": ("param", "experiment_copy", "Z"),
+                       "tmp_experiment.schedules": ("param", "schedules", "L[S]"),
+                       "getattr(tmp_experiment, attribute_name)": ("var", "slots", "L[Z]"),
+                       "self._get_target_index(tmp_experiment, schedule_index)": ("expr", "(get_target_index schedule_index)", "Z"),
+                       "tmp_experiment.calc_prob_dists()": ("expr", "(calc_prob_dists_of slots)", "L[V]")},
+         extra=[("get_target_index", ["Z"], "Z"), ("calc_prob_dists_of", ["L[Z]"], "L[V]")]),
+    # ---- is_valid_experiment of the four classes: which tester lists are tested for a common CompositeSystem (objects are opaque ids)
+    dict(file=STD + "standard_qst.py", **{"class": "StandardQst"}, function="is_valid_experiment", coq_name="gen_qst_is_valid_experiment",
+         params={}, abstractions={"self._experiment.povms": ("param", "povms", "L[Z]")}, calls={"self.is_all_same_composite_systems": ("all_same", ["L[Z]"], "bool")}),
+    dict(file=STD + "standard_povmt.py", **{"class": "StandardPovmt"}, function="is_valid_experiment", coq_name="gen_povmt_is_valid_experiment",
+         params={}, abstractions={"self._experiment.states": ("param", "states", "L[Z]")}, calls={"self.is_all_same_composite_systems": ("all_same", ["L[Z]"], "bool")}),
+    dict(file=STD + "standard_qpt.py", **{"class": "StandardQpt"}, function="is_valid_experiment", coq_name="gen_qpt_is_valid_experiment",
+         params={}, abstractions={"self._experiment.states": ("param", "states", "L[Z]"), "self._experiment.povms": ("param", "povms", "L[Z]")}, calls={"self.is_all_same_composite_systems": ("all_same", ["L[Z]"], "bool")}),
+    dict(file=STD + "standard_qmpt.py", **{"class": "StandardQmpt"}, function="is_valid_experiment", coq_name="gen_qmpt_is_valid_experiment",
+         params={}, abstractions={"self._experiment.states": ("param", "states", "L[Z]"), "self._experiment.povms": ("param", "povms", "L[Z]")}, calls={"self.is_all_same_composite_systems": ("all_same", ["L[Z]"], "bool")}),
     # ---- which object of a schedule is the unknown
     dict(file=STD + "standard_qst.py", **{"class": "StandardQst"}, function="_get_target_index", coq_name="gen_qst_get_target_index",
          params={"schedule_index": "Z"}, drop=["experiment"], abstractions={"experiment.schedules": ("param", "schedules", "L[S]")}),
